@@ -15,6 +15,29 @@ REFUTED = ["sync_exact_refuted_stale_referenced", "sync_exact_refuted_stale_pod_
 DEPS = ["Strs", "Nets", "Netfilter", "Policy", "PolicySpec", "NetfilterP", "PolicySetsP", "PolicyPodsP", "PolicyP", "CorrBase",
         "C15c", "C15"]
 
+MANIFEST = {
+    "text": "Coq theorems over an executable model of pkg/policy (policy.go, event.go: compile to ipsets + GLX-PLCY/GLX-POD chains, "
+            "createIPSet, syncIptables, SyncPodChains, Run, the event handlers) on a strict netfilter/ipset model. Proved for ALL "
+            "inputs: policy_batch_no_dangling / pod_batch_no_dangling (no submitted line before the -X lines names a missing chain "
+            "or set; only a still-referenced stale chain's -X can refuse a batch), policy_chains_exact (an accepted policy batch "
+            "leaves exactly the compiled chains), sync_sets_exact (createIPSet's diff update is exact from every non-conflicting "
+            "prior content, other sets untouched), sync_exact_partial_fresh (a whole Run on a node with arbitrary foreign chains/"
+            "rules/sets but no GLX-owned state is accepted, leaves exactly compile/pod_chain of the cluster and all foreign state as "
+            "it was, for every cluster on which the name hash does not collide and no rule lists one address with both nomatch "
+            "flags). The FULL sync_exact / sync_idem are refuted by five vm_compute witnesses on the faithful model (K5, K5b, K5c, "
+            "K5d; prior states produced by galaxy's own Run), each reproduced on the real code (corpus/C15.json). The model is tied to "
+            "the working tree by driving the REAL PolicyManager (hook NewForVerif, strict iptables/ipset fakes) through ~154 (quick) "
+            "restart/event histories and comparing the dump after EVERY step with the model's kernel; exactness, foreign-untouched, "
+            "idempotence and no-dangling are evaluated on the implementation's own dumps and operation log (~600 evaluations)",
+    "note": "trusted: Coq kernel (no axioms), strict fakes harness/nfake (iptables side hand-checked against iptables v1.8.9, ipset "
+            "side from man page / kernel source: add -exist rewrites the nomatch flag, del removes by address), Go harness + python "
+            "printers, informer plumbing bypassed (handlers called one at a time), name hash not modelled (Section variable H; the "
+            "theorems assume it does not collide on the names in play, the driver reads the real hashes from the implementation). "
+            "ONLY MONITORED, not proved: the general sync_exact_partial from prior kernels that already hold GLX state (restart, "
+            "events) outside the four refuted shapes, idempotence of Run, and events_converge - these are checked differentially on "
+            "every generated history (exactness/idempotence monitors on the implementation's dumps; a failure outside the K5-K5d "
+            "shapes is a VIOLATION). Goroutine concurrency of syncPods is modelled sequentially (compared up to rule order)",
+}
 KNOWN_FINDINGS = [
     {"id": "K5", "status": "open", "tag": "c15-stale-policy-chain-referenced",
      "what": "policy sync never converges when a GLX-PLCY chain of a policy that no longer exists is still referenced "
